@@ -179,13 +179,15 @@ def run_case(case, acc, order):
     bad = check(cfg, res)
     # the same-directory guard (once per configuration family: default + single deviations)
     if ndev <= 1:
-        res2 = ac.run_convert(spec=spec, label=cfg['label'], factor=cfg['factor'], same_dir=True)
-        acc.step(True, 'convert:same-directory')
-        if not isinstance(res2['exception'], IOError):
-            bad.append(('same-directory', 'not-refused', 'IOError', repr(res2['exception'])))
-        elif res2['src_before'] != res2['src_after']:
-            bad.append(('same-directory', 'wrote-something', 'nothing written',
-                        sorted(set(res2['src_after']) ^ set(res2['src_before']))))
+        for how in (True, 'dotdot', 'symlink', 'relative'):
+            res2 = ac.run_convert(spec=spec, label=cfg['label'], factor=cfg['factor'], same_dir=how)
+            acc.step(True, 'convert:same-directory')
+            tag = 'same-path' if how is True else 'other-spelling(%s)' % how
+            if not isinstance(res2['exception'], IOError):
+                bad.append(('same-directory', 'not-refused/' + tag, 'IOError', repr(res2['exception'])))
+            elif res2['src_before'] != res2['src_after']:
+                bad.append(('same-directory', 'wrote-something/' + tag, 'nothing written',
+                            sorted(set(res2['src_after']) ^ set(res2['src_before']))))
     for attr, kind, exp, got in bad:
         dev = '+'.join('%s=%s' % (a, cfg[a]) for a, v in AXES if cfg[a] != v[0]) or 'default'
         feat = 'curated-no-empty-id' if cfg['curation'] == 'reassign' else (
